@@ -151,7 +151,8 @@ package bundle
 // A CountingWriter is itself an io.Writer. Its abstract writer state is not
 // stored but derived from its real state, so the abstract io.Writer contract
 // applied to a CountingWriter speaks about Written and the wrapped writer.
-//@ derive accepted(*CountingWriter) = this.Written ; touches accepted(this.w)
+//@ derive accepted(*CountingWriter) = this.Written
+//@ derive wrapped(*CountingWriter) = accepted(this.w) ; touches wrapped(this.w)
 //@ derive failed(*CountingWriter) = failed(this.w)
 //@ derive content(*CountingWriter) = content(this.w)
 
@@ -169,20 +170,151 @@ package bundle
 //@   ensures 0 <= n && n <= len(p)
 //@   ensures n < len(p) ==> err != nil
 //@   ensures[count] accepted(cw) == old(accepted(cw)) + n
-//@   ensures[underlying] accepted(cw.w) == old(accepted(cw.w)) + n
+//@   ensures[underlying] accepted(cw) - wrapped(cw) == old(accepted(cw) - wrapped(cw))
 //@   ensures failed(cw) == (err != nil)
 //@   ensures err == nil ==> content(cw) == cat(old(content(cw)), bytes(p))
-//@   assigns accepted(cw), failed(cw), content(cw)
+//@   assigns accepted(cw), failed(cw), content(cw), wrapped(cw)
 
 // ReadFrom (io.ReaderFrom): everything handed to the wrapped writer is
 // counted, and the count returned is that number.
 //@ func (*CountingWriter).ReadFrom
 //@   props C04 C19
 //@   requires cw.w != nil && !typeis(cw.w, *CountingWriter) && r != nil && !failed(cw)
-//@   ensures[count] accepted(cw) - old(accepted(cw)) == accepted(cw.w) - old(accepted(cw.w))
-//@   ensures[returned] n == accepted(cw.w) - old(accepted(cw.w))
+//@   ensures[count] accepted(cw) - wrapped(cw) == old(accepted(cw) - wrapped(cw))
+//@   ensures[returned] n == accepted(cw) - old(accepted(cw))
 //@   ensures failed(cw) ==> err != nil
-//@   assigns accepted(cw), failed(cw), content(cw), spos(r)
+//@   ensures n >= 0
+//@   assigns accepted(cw), failed(cw), content(cw), wrapped(cw), spos(r)
 //@   loop 0:
-//@     invariant cw.w != nil && !failed(cw)
-//@     invariant accepted(cw) == old(accepted(cw)) && accepted(cw.w) - old(accepted(cw.w)) == 0
+//@     invariant cw.w != nil && !typeis(cw.w, *CountingWriter) && !failed(cw) && r != nil
+//@     invariant[count] accepted(cw) - wrapped(cw) == old(accepted(cw) - wrapped(cw)) && n == accepted(cw) - old(accepted(cw)) && n >= 0
+
+//@ iface github.com/WICG/webpackage/go/bundle.section.Name
+//@   params (s)
+//@   pure
+//@ iface github.com/WICG/webpackage/go/bundle.section.Len
+//@   params (s)
+//@   pure
+//@   ensures result == seclen(s) && result >= 0
+
+//@ func writePrimaryURL
+//@   props C04 C19
+//@   requires w != nil && !failed(w) && url != nil
+//@   ensures failed(w) ==> result != nil
+//@   ensures accepted(w) >= old(accepted(w)) && accepted(w) - wrapped(w) == old(accepted(w) - wrapped(w))
+//@   assigns accepted(w), failed(w), content(w), wrapped(w)
+
+//@ func writeSectionOffsets
+//@   props C04 C19
+//@   requires w != nil && !failed(w)
+//@   requires forall i int :: 0 <= i && i < len(sections) ==> sections[i] != nil
+//@   ensures failed(w) ==> result != nil
+//@   ensures accepted(w) >= old(accepted(w)) && accepted(w) - wrapped(w) == old(accepted(w) - wrapped(w))
+//@   assigns accepted(w), failed(w), content(w), wrapped(w)
+//@   loop 0:
+//@     invariant nenc != nil && nenc.w != nil && !failed(nenc.w) && typeis(nenc.w, *bytes.Buffer)
+
+//@ func writeSectionHeader
+//@   props C04 C19
+//@   requires w != nil && !failed(w)
+//@   ensures failed(w) == (result != nil)
+//@   ensures result == nil ==> accepted(w) == old(accepted(w)) + 1 + nfOf(uint64(numSections))
+//@   ensures accepted(w) >= old(accepted(w)) && accepted(w) - wrapped(w) == old(accepted(w) - wrapped(w))
+//@   assigns accepted(w), failed(w), content(w), wrapped(w)
+
+// writeFooter: the trailing item is the 8-byte byte string head (0x48) and
+// the big-endian total size offset+9: nine bytes.
+//@ func writeFooter
+//@   props C04 C19
+//@   requires w != nil && !failed(w) && offset >= 0
+//@   ensures failed(w) ==> result != nil
+//@   ensures[nine-bytes] result == nil ==> accepted(w) == old(accepted(w)) + 9
+//@   ensures accepted(w) >= old(accepted(w)) && accepted(w) - wrapped(w) == old(accepted(w) - wrapped(w))
+//@   assigns accepted(w), failed(w), content(w), wrapped(w)
+
+//@ derive seclen(*indexSection) = len(this.bytes)
+//@ derive seclen(*responsesSection) = send(this.buf) - spos(this.buf)
+
+//@ func (*indexSection).Len
+//@   props C04
+//@   requires is.bytes != nil
+//@   ensures result == seclen(is) && result >= 0
+//@   assigns nothing
+
+//@ func (*indexSection).WriteTo
+//@   props C04 C19
+//@   returns (n, err)
+//@   requires is.bytes != nil && w != nil && !failed(w)
+//@   ensures n >= 0 && accepted(w) == old(accepted(w)) + n
+//@   ensures failed(w) ==> err != nil
+//@   ensures err == nil ==> n == old(seclen(is))
+//@   ensures accepted(w) - wrapped(w) == old(accepted(w) - wrapped(w))
+//@   assigns accepted(w), failed(w), content(w), wrapped(w)
+
+//@ func (*responsesSection).Len
+//@   props C04
+//@   ensures result == seclen(rs) && result >= 0
+//@   assigns nothing
+
+//@ func (*responsesSection).WriteTo
+//@   props C04 C19
+//@   returns (n, err)
+//@   requires w != nil && !failed(w)
+//@   ensures n >= 0 && accepted(w) == old(accepted(w)) + n
+//@   ensures failed(w) ==> err != nil
+//@   ensures err == nil ==> n == old(seclen(rs))
+//@   ensures accepted(w) - wrapped(w) == old(accepted(w) - wrapped(w))
+//@   assigns accepted(w), failed(w), content(w), wrapped(w), spos(rs.buf)
+
+// Staging of sections happens in private buffers: these functions touch
+// nothing the destination writer can observe. (Frames assumed until the
+// map encoder's contract is discharged; see DESIGN.md.)
+//@ func addExchange
+//@   props C03 C04
+//@   trusted
+//@   requires is != nil && rs != nil && e != nil
+//@   assigns is.es, *rs
+//@ func (*indexSection).Finalize
+//@   props C03 C04
+//@   trusted
+//@   ensures result == nil ==> is.bytes != nil
+//@   assigns is.bytes
+//@ func newResponsesSection
+//@   props C03 C04
+//@   trusted
+//@   ensures result != nil && fresh(result)
+//@   assigns nothing
+//@ func newPrimarySection
+//@   props C03 C04
+//@   trusted
+//@   returns (ps, err)
+//@   ensures err == nil ==> ps != nil && fresh(ps)
+//@   assigns nothing
+//@ func newManifestSection
+//@   props C03 C04
+//@   trusted
+//@   returns (ms, err)
+//@   ensures err == nil ==> ms != nil && fresh(ms)
+//@   assigns nothing
+//@ func newSignaturesSection
+//@   props C03 C04
+//@   trusted
+//@   returns (ss, err)
+//@   ensures err == nil ==> ss != nil && fresh(ss)
+//@   assigns nothing
+
+// Bundle.WriteTo: a failing destination always surfaces as an error, and the
+// count returned is exactly what the destination accepted, on every return.
+//@ func (*Bundle).WriteTo
+//@   props C04 C19
+//@   returns (n, err)
+//@   requires w != nil && !failed(w) && !typeis(w, *CountingWriter)
+//@   requires forall i int :: 0 <= i && i < len(b.Exchanges) ==> b.Exchanges[i] != nil
+//@   requires b.Version == version.VersionB1 || b.Version == version.VersionB2
+//@   requires b.Version == version.VersionB1 ==> b.PrimaryURL != nil
+//@   ensures[write-failure-surfaces] failed(w) ==> err != nil
+//@   ensures[count-is-accepted] n == accepted(w) - old(accepted(w))
+//@   assigns accepted(w), failed(w), content(w), wrapped(w)
+//@   loop 1:
+//@     invariant !failed(cw) && cw.w == w && accepted(cw) - wrapped(cw) == 0 - old(accepted(w))
+//@     invariant forall i int :: 0 <= i && i < len(sections) ==> sections[i] != nil
